@@ -894,7 +894,9 @@ async fn forward_sub_to_sender(
             },
         };
 
-        if skip_rows
+        // a subscriber that caught up got its own snapshot (or asked for none): the creator's
+        // initial query can still be on its way through the broadcast
+        if (skip_rows || last_change_id.is_some())
             && matches!(
                 meta,
                 QueryEventMeta::Columns | QueryEventMeta::Row(_) | QueryEventMeta::EndOfQuery(_)
